@@ -30,6 +30,27 @@ theorem inflation_zero_exp_ended (m : M) (a step mult supply start e t : Int)
     · rw [he]; simp only [ge_iff_le, decide_eq_true_eq]
       rw [if_pos ht]
 
+/-- zero for a linear period whose end has been reached (D33: the unrepaired code reported the full
+    rate although nothing is emitted any more) -/
+theorem inflation_zero_lin_ended (m : M) (a supply start e t : Int)
+    (hc : m.cfg = .lin a) (he : m.endT = some e) (ht : e ≤ t) :
+    inflation m supply start t = .ok 0 := by
+  unfold inflation; split
+  · rfl
+  · rw [hc]; simp only []
+    split
+    · rfl
+    · rw [he]; simp only [ge_iff_le]
+      rw [if_pos ht]
+
+/-- **zero for every period whose end has passed**, whatever its kind -/
+theorem inflation_zero_ended (m : M) (supply start e t : Int) (he : m.endT = some e) (ht : e ≤ t) :
+    inflation m supply start t = .ok 0 := by
+  cases hc : m.cfg with
+  | noMint => exact inflation_zero_nominting m supply start t hc
+  | lin a => exact inflation_zero_lin_ended m a supply start e t hc he ht
+  | exp a step mult => exact inflation_zero_exp_ended m a step mult supply start e t hc he ht
+
 /-- linear period: inflation · supply is the annualised emission `amount · year / period`,
     up to the two integer truncations (at most one 10^-18 unit each) -/
 theorem rate_linear (a supply start e : Int) (ha : 0 ≤ a) (hs : 0 < supply) (hp : 0 < e - start) :
